@@ -727,6 +727,47 @@ func c02Denit(p *Prog, r *Report) {
 			if !ok2 {
 				det += ": the fraction was computed from a different layer, so N is booked as denitrified without being removed from (or is removed twice from) this layer"
 			}
+			// the amount distributed over the group must be the amount computed from this group's nitrate sum
+			if ok2 {
+				grp := map[string]bool{}
+				for _, v := range vals {
+					S := cellP("GlobalVarsMain.C1", k).Div(stripVersions(v))
+					for _, t := range S.sortedTerms() {
+						if len(t.M) == 1 && t.M[0].A.Root == "GlobalVarsMain.C1" {
+							grp[t.M[0].A.Idx[0].String()] = true
+						}
+					}
+				}
+				amt := map[string]bool{}
+				var collect func(q Poly, depth int)
+				collect = func(q Poly, depth int) {
+					q.walkAtoms(func(a *Atom) {
+						if a.Kind == "cell" && a.Root == "GlobalVarsMain.C1" && len(a.Idx) == 1 {
+							amt[stripVersions(a.Idx[0]).String()] = true
+						}
+						if a.Kind == "phi" && depth < 4 {
+							for _, arm := range x.Phis[a.Key] {
+								if arm.Has {
+									collect(arm.Val, depth+1)
+								}
+							}
+						}
+					})
+				}
+				collect(e.Args[2], 0)
+				same := len(amt) == len(grp)
+				for kx := range grp {
+					if !amt[kx] {
+						same = false
+					}
+				}
+				if !same {
+					ok2 = false
+					det += fmt.Sprintf("; but the amount %s handed to this layer was computed from the nitrate of layers %v, not of this layer's group %v: what is removed from the pool differs from what the counter books", clip(e.Args[2].String(), 40), keysOf(amt), keysOf(grp))
+				} else {
+					det += "; amount computed from the same group's nitrate sum"
+				}
+			}
 			r.Ob(fmt.Sprintf("Denitmo:C1[%s]", k), p.Pos(e.Pos), ok2, det)
 		}
 	}
@@ -845,3 +886,4 @@ func shortGuards(gs []*Cond) string {
 	}
 	return s
 }
+
